@@ -961,6 +961,11 @@ class Summariser:
             # current statement keep their previous binding)
             x = st.fork()
             x.events[-1] = e.copy(raised=True)
+            if st.under is not None:
+                # the arm of the conditional expression / short-circuit was entered: on this edge its condition is a guard, as after an `if`
+                x.events[-1].under = None
+                x.events.insert(len(x.events) - 1, Event("ASSUME", {"cond": st.under}, node, st.trys, st.loops, None, False, st.depth))
+                x.under = None
             self.pending.append((x, ("raise", {"kind": "implicit", "event": e, "cls": None, "classes": STREAM_EXC.get(kind)})))
         return e
 
